@@ -9,6 +9,7 @@ taxonomy, the reported line, a logical step budget and the compiler's global sta
 """
 
 import ast
+import os
 import random
 import re
 import signal
@@ -41,6 +42,7 @@ ASSUMPTIONS = [
 ]
 MIN_COUNTERS = {
     "quick": {
+        "import_layer_cases": 100,
         "cases": 9000,
         "accepted": 1500,
         "rejected": 4000,
@@ -399,6 +401,61 @@ def full_layer(text, mode2D=False):
     return {"kind": kind, "exc": exc, "state": state}
 
 
+_IMPDIR = [None, 0]
+
+
+def import_layer(text):
+    """The same text as an IMPORTED Scenic module: write it to a scratch directory on sys.path and compile a
+    program importing it (errors in imported modules take a different clean-up path than errors in the top-level
+    source).  Afterwards the compiler state must be clean and a follow-up compilation with params must work."""
+    import shutil
+    import sys
+    import tempfile
+
+    import scenic
+    from rt import su
+
+    if _IMPDIR[0] is None:
+        import atexit
+
+        _IMPDIR[0] = tempfile.mkdtemp(prefix="verif-c10-imp-")
+        sys.path.insert(0, _IMPDIR[0])
+        atexit.register(shutil.rmtree, _IMPDIR[0], True)
+    _IMPDIR[1] += 1
+    name = f"verif_c10_imp_{os.getpid()}_{_IMPDIR[1]}"
+    path = os.path.join(_IMPDIR[0], name + ".scenic")
+    with open(path, "w", encoding="utf-8", errors="surrogatepass") as f:
+        f.write(text)
+    r = full_layer(f"import {name}\nego = new Object\n")
+    r["follow"] = None
+    dirty = {k: v for k, v in r["state"].items() if CLEAN.get(k, v) != v}
+    if not dirty and r["kind"] != "alarm":
+        try:
+            scenic.scenarioFromString("param a = 0\nego = new Object\n", params={"a": 1})
+        except BaseException as e:  # noqa
+            r["follow"] = e
+    sys.modules.pop(name, None)
+    try:
+        os.remove(path)
+    except OSError:
+        pass
+    return r
+
+
+def judge_import(text, r):
+    out = []
+    dirty = {k: v for k, v in r["state"].items() if CLEAN.get(k, v) != v}
+    e = r["exc"]
+    if dirty and r["kind"] != "alarm":
+        out.append((None, f"compiler global state left dirty after a program importing the module ended with {r['kind']} ({type(e).__name__ + ': ' + str(e)[:100] if e else 'success'}): {dirty}"))
+    if r["kind"] == "rawsyntax":
+        out.append((None, f"raw {type(e).__name__} escaped from an imported module: {str(e)[:160]}"))
+    if r.get("follow") is not None:
+        f = r["follow"]
+        out.append((None, f"follow-up compilation with params failed with {type(f).__name__}: {str(f)[:120]} after importing the module ended with {r['kind']}"))
+    return out
+
+
 def judge_full(text, r):
     out = []
     dirty = {k: v for k, v in r["state"].items() if CLEAN.get(k, v) != v}
@@ -532,6 +589,14 @@ def run_shard(spec):
         j = judge_front(text, r)
         if j:
             violation(j[0], j[1], text, "front", origin + "/" + mut)
+        if k in ("ok", "syntax") and side_effect_free(text) and "\x00" not in text and rng.random() < (0.05 if k == "syntax" else 0.01):
+            ri = import_layer(text)
+            bump("import_layer_cases")
+            bump("import_layer_" + ri["kind"])
+            for key, what in judge_import(text, ri):
+                violation(key, what, text, "import", origin + "/" + mut)
+            if ri["kind"] != "alarm":
+                reset_veneer()
         return r
 
     def mutated(text, toks=None):
@@ -726,6 +791,11 @@ def replay(w):
         for key, what in judge_full(text, r):
             out.append({"key": key, "what": what, "witness": w})
         return out
+    if w.get("layer") == "import":
+        r = import_layer(text)
+        for key, what in judge_import(text, r):
+            out.append({"key": key, "what": what, "witness": w})
+        return out
     r = front_end(text)
     j = judge_front(text, r)
     if j:
@@ -735,6 +805,6 @@ def replay(w):
 
 MANIFEST_ENTRY = {
     "technique": "runtime monitoring: invariant at the API boundary (exception taxonomy, reported line, logical step budget, compiler global state) under mutation-generated hostile inputs",
-    "text": "Every repository Scenic program, test snippet and form generated from the reference headings, plus seeded token/byte-level mutants, truncations at every token boundary and the exhaustive product of binding/pattern/decorator/annotation carriers with Scenic-only expressions, is pushed through the real parser, compiler, ast.unparse and compile(); a side-effect-free sample also through scenarioFromString. Each case must end in success or a Scenic syntax error naming a line of the input, within a logical tokenizer-step budget, leaving the veneer globals clean; documented forms must be accepted and parsed like their explicitly parenthesised reading.",
+    "text": "Every repository Scenic program, test snippet and form generated from the reference headings, plus seeded token/byte-level mutants, truncations at every token boundary and the exhaustive product of binding/pattern/decorator/annotation carriers with Scenic-only expressions, is pushed through the real parser, compiler, ast.unparse and compile(); a side-effect-free sample also through scenarioFromString, and a sample as an IMPORTED module (followed by a compilation with params). Each case must end in success or a Scenic syntax error naming a line of the input, within a logical tokenizer-step budget, leaving the veneer globals clean; documented forms must be accepted and parsed like their explicitly parenthesised reading.",
     "note": "Bounded exploration: held on the cases driven. RecursionError from nesting is counted as resource exhaustion (nesting capped at 12 in generated cases); the wall-clock alarm only marks cases inconclusive. Run-time errors of executed user code are not judged.",
 }
